@@ -256,6 +256,15 @@ func genRich(t *core.Tape, tier, prop string) *Scenario {
 	} else {
 		sc.Notes["ok_"+p.Kind.String()]++
 	}
+	if prop == "C11" && p.Kind == KUnary && c.Proto == PConnect && p.HErr != nil && !p.HErr.Plain && p.HErr.CtxKind == 0 && !p.InterceptorErrAfter && t.Bool(1, 5, "error.body.over.read.limit") {
+		// the client's read limit is smaller than the error body: the error
+		// cannot be decoded, but the headers (and with them the metadata) have
+		// arrived all the same
+		sc.Clients[0].ReadMax = 48
+		p.HErr.Msg = "a rather long explanation of what went wrong, longer than the client's read limit allows: " + p.HErr.Msg
+		p.RespMsgs = [][]byte{{}}
+		sc.Notes["error_body_over_read_limit"]++
+	}
 	if prop == "C11" && (p.Kind == KServer || p.Kind == KBidi) && t.Bool(1, 3, "peek.header") {
 		// the client looks at the response headers before its first Receive
 		prog := &p.CProg
